@@ -24,7 +24,11 @@ import plistlib
 
 from harness.core import vloop
 
-RULE = ("PIN sweep: the compared secret at boundary values (0000, 0001, 9999) and random ones, right PIN (typed as int "
+RULE = ("round 4: every documented HAP error code with/without the BackOff item at every TLV reply (thorough: all 14 for "
+        "NN; otherwise the back-off reply and one seed-chosen other); wrong-type containers naming the expected "
+        "keys (plist roots, OPACK pairing data / root, TLV as text body); configuration sweep (DMAP pairing guid and "
+        "remote name shapes x right code / wrong code / missing field; presented name for the other handlers, "
+        "fault-free and wrong PIN); PIN sweep: the compared secret at boundary values (0000, 0001, 9999) and random ones, right PIN (typed as int "
         "and as 4-digit string) and wrong PINs / wrong pairing codes (neighbours, random, junk) for MRP, Companion, "
         "AirPlay-HAP, RAOP-HAP and DMAP (DMAP: all request faults per PIN); "
         "exhaustive: every pairing handler configuration (mrp, companion, companion with stored credentials, "
@@ -1416,7 +1420,7 @@ def run(ctx, only=None):
                 faults = [f for f in faults if keep_shape(f)]
             # error codes x BackOff item: all 14 per TLV reply in the thorough tier for NN and AA; otherwise
             # per TLV reply the documented back-off reply (Error=BackOff + BackOff item) and one seed-chosen other
-            if not (ctx.thorough and prior in ("NN", "AA")):
+            if not (ctx.thorough and prior == "NN"):
                 crng = ctx.rng.fork("codes", name, prior)
                 keep = []
                 for i in sorted({f[0] for f in faults if is_code_variant(f[1], f[2])}):
@@ -1429,7 +1433,7 @@ def run(ctx, only=None):
                         keep.append(crng.choice(codes))
                 faults = [f for f in faults if not is_code_variant(f[1], f[2]) or f in keep]
             for fault in (faults if full else reduced_faults(ctx, name, prior, faults)):
-                nrep = reps if (fault[1] == "garbage" and full) else 1
+                nrep = reps if (fault[1] == "garbage" and full and fault[2] in ("frame", "tlv", "body", "inner")) else 1
                 for rep in range(nrep):
                     case, obs = evaluate(ctx, name, prior, fault, base, rep)
                     ctx.case([name, prior, list(fault), rep], fault[0] >= 2 or name == "dmap",
